@@ -286,6 +286,21 @@ func check(c Case) (kind, what string) {
 			}
 			p, err = md.ICCProfile()
 		})
+	case "buffer-reused":
+		// the profile is read from a *bytes.Buffer which the caller then reuses for the next profile (a different one,
+		// of about the same size) before asking the first profile for its description: a returned Profile owns its data
+		other := build.SimpleProfile(build.Mluc([]build.MlucRec{{Lang: [2]byte{'e', 'n'}, Country: [2]byte{'U', 'S'}, Text: "another profile " + strings.Repeat("#", len(prof)/3)}}, nil, nil, 0), len(prof)/2)
+		pn, msg = ev.Guard(func() {
+			buf := bytes.NewBuffer(append([]byte(nil), prof...))
+			p, err = icc.NewProfileReader(buf).ReadProfile()
+			buf.Reset()
+			buf.Write(other)
+			if p2, e2 := icc.NewProfileReader(buf).ReadProfile(); e2 == nil {
+				p2.Description()
+			}
+			buf.Reset()
+			buf.Write(bytes.Repeat([]byte{0xEE}, len(prof)+len(other)))
+		})
 	case "positioned":
 		// the profile sits somewhere inside a standard-library reader (after container bytes, or after another
 		// profile): reading starts at the reader's current position, wherever that is
@@ -598,7 +613,7 @@ func gen(rt *rapid.T) Case {
 		}
 		c.Gap = rapid.SampledFrom([]int{0, 0, 2, 4}).Draw(rt, "gap")
 	}
-	c.Via = rapid.SampledFrom([]string{"reader", "reader", "positioned", "positioned", "png", "jpeg"}).Draw(rt, "via")
+	c.Via = rapid.SampledFrom([]string{"reader", "reader", "positioned", "positioned", "png", "jpeg", "buffer-reused"}).Draw(rt, "via")
 	return c
 }
 
@@ -614,7 +629,7 @@ func TestC17(t *testing.T) {
 		fmt.Println("REPLAY case passed")
 		return
 	}
-	ev.Rule("rapid grammar-built ICC profiles: 0-64 tags with distinct signatures, 'desc' at a random table position or absent, data blocks laid out in table/reverse/random order, blocks shared between tags, 0-3 padding bytes between blocks and after the table, trailer bytes; v2 textDescription (0-2000 printable ASCII; half with different text in the Unicode and ScriptCode parts, the ASCII part sometimes empty) or v4 mluc with 1-40 records (languages incl. 0/1/several 'en'), strings in table/reverse/random order, shared, overlapping (suffix), with gaps; text from ASCII, BMP and surrogate-pair ranges; read through icc.NewProfileReader from offset 0 or from a standard reader positioned after container bytes, or embedded in a PNG (iCCP) / JPEG (2 APP2 chunks) through meta.Data.ICCProfile. non-trivial = distinct case with >= 2 mluc records, a string not immediately after its record, data order != table order, shared or padded blocks, or zero tags")
+	ev.Rule("rapid grammar-built ICC profiles: 0-64 tags with distinct signatures, 'desc' at a random table position or absent, data blocks laid out in table/reverse/random order, blocks shared between tags, 0-3 padding bytes between blocks and after the table, trailer bytes; v2 textDescription (0-2000 printable ASCII; half with different text in the Unicode and ScriptCode parts, the ASCII part sometimes empty) or v4 mluc with 1-40 records (languages incl. 0/1/several 'en'), strings in table/reverse/random order, shared, overlapping (suffix), with gaps; text from ASCII, BMP and surrogate-pair ranges; read through icc.NewProfileReader from offset 0 or from a standard reader positioned after container bytes, or embedded in a PNG (iCCP) / JPEG (2 APP2 chunks) through meta.Data.ICCProfile, or from a *bytes.Buffer that is reused for another profile and then overwritten before the description is asked for. non-trivial = distinct case with >= 2 mluc records, a string not immediately after its record, data order != table order, shared or padded blocks, or zero tags")
 	ev.Assume("harness ICC/mluc builder; Description must be a member of the allowed set (any 'en' record, else any record)")
 	// deterministic corner cases first
 	fixed := []Case{
